@@ -52,6 +52,13 @@ def gen(tier, rng):
                 continue
             o = info[s]
             out.append(("URLT %s %s %s" % (ty, C.tb(s), "-" if o is None else o[0]), "valid" if o else "invalid"))
+    from gen import docs as D
+    short = [s for s in strings if len(s) < 400 and "\x00" not in s]
+    tab = C.tlist([s for s in short if info[s] is not None])
+    for i, s in enumerate(short):
+        for name in ("verification_uri", "verification_url"):
+            doc = D.render(D.obj([("device_code", "dc"), ("user_code", "uc"), (name, s), ("expires_in", 600)]), rng, plain=(i % 2 == 0))
+            out.append(("DECODE device E %s %s" % (C.tb(doc.encode("utf-8")), tab), "device-response-uri/" + ("valid" if info[s] is not None else "invalid")))
     valid = [s for s in strings if info[s] is not None and len(s) < 400][:60]
     litvalid = [x for x in dict.fromkeys(lit) if info.get(x) is not None and x not in valid]
     for ti, ty in enumerate(TYPES):
